@@ -1,4 +1,5 @@
 import LlirProofs.CoreLemmas
+import LlirProofs.Core2Mod
 /-! # C02 — Printed output is a fixpoint of parse and print (property theorems only; PARTIAL: M-Core) -/
 namespace Llir.Props.C02
 open Llir Llir.Core
@@ -34,5 +35,21 @@ theorem second_parse_identical (useHex : Int → Bool) (m : CoreMod)
   have := canon_idem m
   unfold canon at this
   simpa using this
+
+/-! ## second fragment (struct type definitions with bodies, globals of any type, nested aggregate constants) -/
+
+/-- One parse normalises: the module obtained by parsing prints to a text that parses to itself. -/
+theorem core2_second_parse_identical (useHex : Int → Bool) (m : Core2.Mod) (h : Core2.WF m) :
+    Core2.translateTok (Core2.printTok useHex (Core2.canon m)) = some (Core2.canon m) :=
+  Core2.core2_fixpoint useHex m h
+
+/-- hence printing after the second parse reproduces the first print, token for token -/
+theorem core2_one_step_fixpoint (useHex : Int → Bool) (m : Core2.Mod) (h : Core2.WF m) :
+    (Core2.translateTok (Core2.printTok useHex (Core2.canon m))).map (Core2.printTok useHex) =
+      some (Core2.printTok useHex (Core2.canon m)) := by
+  rw [Core2.core2_fixpoint useHex m h]; rfl
+
+theorem core2_canon_idem (m : Core2.Mod) (h : Core2.WF m) : Core2.canon (Core2.canon m) = Core2.canon m :=
+  Core2.canon_idem m ((Core2.hasDup_false_iff_nodup _).mp h.nodupT)
 
 end Llir.Props.C02
